@@ -390,7 +390,7 @@ def configs(tier):
     for r in range(0, 6):
         for comb in itertools.combinations(PATTERN_KEYS, r):
             pats.append(comb)
-    pre = [(2, None), (2, 2), (1, 1)] if q else [(1, None), (2, None), (1, 1), (1, 2), (2, 1), (2, 2)]
+    pre = [(2, None), (2, 2), (1, 1)] if q else [(1, None), (2, None), (3, None), (1, 1), (1, 2), (1, 3), (2, 1), (2, 2), (3, 1), (3, 2)]
     for s0, N0 in pre:
         for pat in pats:
             for s1, k, N1 in ([(3, 3, 1)] if q else [(3, 3, 1), (1, 2, 2)]):
